@@ -627,6 +627,24 @@ class Evaluator:
                 fr.env.vars[c.func.value.id] = new
                 self.emit(fr, "assign", st.lineno, (c.func.value.id, new, True))
                 return
+        # D.update({...}) / D.update(other) on a local dict: the dict value is rebuilt key by key
+        if isinstance(c, ast.Call) and isinstance(c.func, ast.Attribute) and c.func.attr == "update" and \
+                isinstance(c.func.value, ast.Name) and len(c.args) == 1 and not c.keywords:
+            cur = fr.lookup(c.func.value.id)
+            if cur is not None and c.func.value.id in fr.env.vars:
+                arg = self.eval(fr, c.args[0])
+                if arg.op == "dict" and len(arg.args) % 2 == 0 and all(
+                        arg.args[j].op == "const" for j in range(0, len(arg.args), 2)):
+                    new = cur
+                    for j in range(0, len(arg.args), 2):
+                        new = setitem(new, arg.args[j], arg.args[j + 1])
+                        self.emit(fr, "store", st.lineno, (c.func.value.id, (arg.args[j],), arg.args[j + 1], False,
+                                                            getitem(cur, arg.args[j]), cur))
+                else:
+                    new = mk("update", cur, arg)
+                fr.env.vars[c.func.value.id] = new
+                self.emit(fr, "assign", st.lineno, (c.func.value.id, new, True))
+                return
         # D.setdefault(k, []).append(e)  is  D[k] = D.get(k, []) + [e]   (the form the repository writes out)
         if isinstance(c, ast.Call) and isinstance(c.func, ast.Attribute) and c.func.attr == "append" and len(c.args) == 1 \
                 and not c.keywords and isinstance(c.func.value, ast.Call) and isinstance(c.func.value.func, ast.Attribute) \
@@ -809,8 +827,8 @@ class Evaluator:
                     if isinstance(b, ast.Name):
                         out.append(b.id)
                 elif isinstance(n, ast.Call) and isinstance(n.func, ast.Attribute) and isinstance(n.func.value, ast.Name) \
-                        and n.func.attr in ("append", "extend"):
-                    out.append(n.func.value.id)      # list filled in the loop
+                        and n.func.attr in ("append", "extend", "update"):
+                    out.append(n.func.value.id)      # list / dict filled in the loop
                 elif isinstance(n, (ast.FunctionDef, ast.Lambda)) and n is not st:
                     pass
         seen, res = set(), []
